@@ -106,7 +106,9 @@ pub fn cancel_case_f(ctx: &mut Ctx, compressed: bool, verify: bool, frames: &[Ve
                 let mut rest: Vec<&String> = a.items.iter().collect();
                 let mut missing: Vec<&String> = vec![];
                 for t in &b.items { if let Some(i) = rest.iter().position(|x| *x == t) { let _ = rest.remove(i); } else { missing.push(t); } }
-                let only_keepalives = missing.iter().all(|t| t.as_str() == "pkt T.0.0" || t.starts_with("err"));
+                // (the end-of-stream result may be missing too when the poll budget ran out; any *other* error result that
+                // goes missing — a refused version, a decode error — is a lost result like a lost packet)
+                let only_keepalives = missing.iter().all(|t| t.as_str() == "pkt T.0.0" || t.as_str() == "err disconnected") && missing.iter().any(|t| t.as_str() == "pkt T.0.0");
                 let sig = if a.dropped_in_write && only_keepalives { "c19/cancel/keepalive-reply-in-flight" } else { "c19/cancel/other" };
                 ctx.violation(sig, "dropping a pending read changed the packets later reads return or left a partial frame on the outgoing side", &op,
                     &format!("{} | out={}", b.items.join(";"), hex(&b.out)), &res);
@@ -179,6 +181,23 @@ pub fn run(ctx: &mut Ctx) {
             // a transport whose flush is sometimes not ready (every await point of the read future is a drop point)
             let fl: Vec<bool> = if ctx.rng.chance(1, 3) { (0..8).map(|_| ctx.rng.chance(1, 2)).collect() } else { vec![] };
             cancel_case_f(ctx, compressed, verify, &frames, &evs, &ws, &fl, &drops);
+        }
+        // 5. version verification on: a refused IS_VER is a result like any other — with a write half that is not ready or takes
+        // a byte at a time (whatever the connection may want to send at that point), every drop index
+        {
+            let bad = pool.ver[8].clone();
+            let good = pool.ver[9].clone();
+            for ws in [vec![WEv::Pending, WEv::Accept(1), WEv::Pending, WEv::Accept(1), WEv::Pending, WEv::Accept(8), WEv::Pending, WEv::Accept(8)], vec![WEv::Accept(2), WEv::Pending, WEv::Pending, WEv::Accept(2), WEv::Pending, WEv::Accept(4)], vec![]] {
+                let frames = vec![ping.clone(), bad.clone(), ping.clone(), good.clone(), ka.clone(), bad.clone()];
+                let mut evs = vec![];
+                for f in &frames { evs.push(Ev::Pending); evs.push(Ev::Data(f.clone())); }
+                evs.push(Ev::Pending);
+                evs.push(Ev::Eof);
+                let base = run_cancel(compressed, true, evs.clone(), ws.clone(), &BTreeSet::new());
+                let n = base.map(|b| b.suspensions).unwrap_or(0).min(24);
+                cancel_case(ctx, compressed, true, &frames, &evs, &ws, &BTreeSet::new());
+                for i in 0..n { cancel_case(ctx, compressed, true, &frames, &evs, &ws, &[i].into_iter().collect()); }
+            }
         }
         // 4. a burst that fills the connection's receive buffer to the last byte (6120 bytes; and just under / over), the
         // transport not ready on the next read, the read future dropped there — on a frame boundary and inside a frame
